@@ -1,6 +1,6 @@
 #!/bin/bash
-# run every check in the thorough tier (timing / robustness survey; not evidence)
-for c in C01 C02 C03 C04 C05 C06 C07 C08 C09 C10 C11 C12 C13 C14 C15 C16 C17 C18 C19 C20; do
+# run checks in the thorough tier (timing / robustness survey; not evidence).  CHECKS="C12 C13" selects some.
+for c in ${CHECKS:-C01 C02 C03 C04 C05 C06 C07 C08 C09 C10 C11 C12 C13 C14 C15 C16 C17 C18 C19 C20}; do
   s=$(date +%s); ./check $c --tier thorough > /tmp/thorough_$c.log 2>&1; rc=$?; e=$(date +%s)
   echo "$c rc=$rc $((e-s))s $(grep -v KNOWN /tmp/thorough_$c.log | tail -1 | cut -c1-200)"
 done
